@@ -446,6 +446,16 @@ impl UntypedProgram {
             // they occur in the source code
             sorted_const_defs.sort_by_key(|(_name, const_def)| const_def.meta);
             for (const_name, const_def) in sorted_const_defs {
+                // the declared type can be the name of a struct or an enum:
+                let mut const_def = const_def.clone();
+                match const_def.ty.as_concrete_type(&top_level_defs) {
+                    Ok(ty) => const_def.ty = ty,
+                    Err(e) => {
+                        errors.extend(e);
+                        continue;
+                    }
+                }
+                let const_def = &const_def;
                 fn check_const_expr(
                     value: &ConstExpr,
                     const_def: &ConstDef,
@@ -486,10 +496,18 @@ impl UntypedProgram {
                             }
                         }
                         ConstExprEnum::ExternalValue { party, identifier } => {
-                            const_deps
-                                .entry(party.clone())
-                                .or_default()
-                                .insert(identifier.clone(), (const_def.ty.clone(), meta));
+                            let deps = const_deps.entry(party.clone()).or_default();
+                            match deps.get(identifier) {
+                                // a value that a party provides has one type
+                                Some((ty, _)) if ty != &const_def.ty => {
+                                    let e =
+                                        TypeErrorEnum::TypeMismatch(ty.clone(), const_def.ty.clone());
+                                    errors.extend(vec![Some(TypeError::new(e, meta))]);
+                                }
+                                _ => {
+                                    deps.insert(identifier.clone(), (const_def.ty.clone(), meta));
+                                }
+                            }
                         }
                         ConstExprEnum::ConstExprIdent(ident) => match const_defs.get(ident) {
                             Some(def) => {
